@@ -320,13 +320,25 @@ impl ValueParser {
         let discr_value = discr_member.and_then(|member| {
             let discr = self.parse_struct_member(pcx, member, data.as_ref())?.value;
             if let Value::Scalar(scalar) = discr {
-                return scalar.try_as_number();
+                // fixed-size forms of `DW_AT_discr_value` are read sign-extended, so an unsigned
+                // tag with the top bit set is known under its sign-extended value
+                let alias = match scalar.value {
+                    Some(SupportedScalar::U8(n)) => Some(n as i8 as i64),
+                    Some(SupportedScalar::U16(n)) => Some(n as i16 as i64),
+                    Some(SupportedScalar::U32(n)) => Some(n as i32 as i64),
+                    _ => None,
+                };
+                return scalar.try_as_number().map(|v| (v, alias));
             }
             None
         });
 
-        let enumerator =
-            discr_value.and_then(|v| enumerators.get(&Some(v)).or_else(|| enumerators.get(&None)));
+        let enumerator = discr_value.and_then(|(v, alias)| {
+            enumerators
+                .get(&Some(v))
+                .or_else(|| alias.and_then(|a| enumerators.get(&Some(a))))
+                .or_else(|| enumerators.get(&None))
+        });
 
         let enumerator = enumerator.and_then(|member| {
             Some(Box::new(self.parse_struct_member(
